@@ -129,7 +129,15 @@ def obligations(chk, prop='C17'):
             r = ex_.materialize(a[1])
             s = ex_.materialize(ex_.field_of(r, None, 0, 'usize'))
             if isinstance(s, Obj) and s.kind == 'span':
-                return Obj('symstr', name='group(%d,%d)' % (s.d['d'], s.d['g']))
+                # capture offsets are offsets into the STEP TEXT: slicing that text gives the group; slicing another string
+                # with them gives the group only if that string starts where the step text starts (match at offset 0)
+                base = M.str_of(ex_, a[0]) if hasattr(M, 'str_of') else ex_.materialize(a[0])
+                bname = base.name if isinstance(base, Obj) and base.kind == 'symstr' else repr(base)
+                if bname == 'step.value':
+                    return Obj('symstr', name='group(%d,%d)' % (s.d['d'], s.d['g']))
+                if bname == 'whole(%d)' % s.d['d'] and ex_.branch(z3.Bool('match(%d)-starts-at-offset-0' % s.d['d'])):
+                    return Obj('symstr', name='group(%d,%d)' % (s.d['d'], s.d['g']))
+                return Obj('symstr', name='slice-of-%s-by-offsets-of-group(%d,%d)' % (bname, s.d['d'], s.d['g']))
             raise Inconclusive('string index by %r' % (r,))
 
         @reg('Itertools::sorted')
